@@ -359,194 +359,6 @@ var c01Classes = []decClass{
 	{5, "-549755813888", "549755813887"}, {8, "-9223372036854775808", "9223372036854775807"},
 }
 
-func c01Decimal(p *core.Program, r *core.Report, ip *bits.Interp, rule string) {
-	fi := p.Method("io", "DataOutputX", "WriteDecimal")
-	if fi == nil {
-		r.Undec(rule, "io.(*DataOutputX).WriteDecimal", "-", "not found")
-		return
-	}
-	info := fi.Pkg.TypesInfo
-	var sw *ast.SwitchStmt
-	for _, s := range fi.Decl.Body.List {
-		if x, ok := s.(*ast.SwitchStmt); ok && x.Tag == nil {
-			sw = x
-		}
-	}
-	base := "io.(*DataOutputX).WriteDecimal"
-	if sw == nil {
-		r.Undec(rule, base, p.Pos(fi.Decl.Pos()), "no tagless switch over the value (the length classes are not visible as ordered case guards)")
-		return
-	}
-	var vobj types.Object = info.Defs[fi.Decl.Type.Params.List[0].Names[0]]
-	clauses := sw.Body.List
-	// clause 0: v == 0 -> WriteByte(0)
-	if len(clauses) != len(c01Classes)+1 {
-		r.Viol(rule, base+" classes", p.Pos(sw.Pos()), fmt.Sprintf("%d cases, want zero + %d length classes", len(clauses), len(c01Classes)))
-		return
-	}
-	isV := func(e ast.Expr) bool {
-		id, ok := ast.Unparen(e).(*ast.Ident)
-		return ok && info.ObjectOf(id) == vobj
-	}
-	cstr := func(e ast.Expr) string {
-		if tv, ok := info.Types[e]; ok && tv.Value != nil {
-			return tv.Value.ExactString()
-		}
-		return "?"
-	}
-	// zero class
-	{
-		cl := clauses[0].(*ast.CaseClause)
-		ok := false
-		if len(cl.List) == 1 {
-			if be, isB := cl.List[0].(*ast.BinaryExpr); isB && be.Op == token.EQL && isV(be.X) && cstr(be.Y) == "0" {
-				ok = true
-			}
-		}
-		emits := singleWriteByteConst(info, cl.Body)
-		r.Check(ok && emits == "0", rule, base+" class 0", p.Pos(cl.Pos()), "v == 0 -> one byte 0", "zero is not encoded as the single byte 0 under the guard v == 0")
-	}
-	for i, want := range c01Classes {
-		cl := clauses[i+1].(*ast.CaseClause)
-		c := fmt.Sprintf("%s class %d", base, want.tag)
-		pos := p.Pos(cl.Pos())
-		guardOK := false
-		if len(cl.List) == 1 {
-			if and, ok := cl.List[0].(*ast.BinaryExpr); ok && and.Op == token.LAND {
-				l, lok := and.X.(*ast.BinaryExpr)
-				h, hok := and.Y.(*ast.BinaryExpr)
-				if lok && hok && l.Op == token.LEQ && h.Op == token.LEQ && isV(l.Y) && isV(h.X) && cstr(l.X) == want.lo && cstr(h.Y) == want.hi {
-					guardOK = true
-				}
-			}
-		}
-		if !guardOK {
-			r.Viol(rule, c, pos, fmt.Sprintf("case guard is not exactly %s <= v && v <= %s at position %d: the shortest form is not chosen for some value", want.lo, want.hi, i+1))
-			continue
-		}
-		// interpret the body: bytes handed to out.WriteBytes
-		fr := ip.NewFrame(fi)
-		var emitted *bits.Bytes
-		bad := ""
-		for _, s := range cl.Body {
-			if es, ok := s.(*ast.ExprStmt); ok {
-				if call, ok := es.X.(*ast.CallExpr); ok {
-					if sel, ok := call.Fun.(*ast.SelectorExpr); ok && sel.Sel.Name == "WriteBytes" && len(call.Args) == 1 {
-						v := ip.Eval(fr, call.Args[0], nil)
-						if v == nil || v.B == nil {
-							bad = "cannot evaluate the emitted bytes: " + fr.Err()
-						} else if emitted != nil {
-							bad = "more than one WriteBytes in a class"
-						} else {
-							emitted = v.B
-						}
-						continue
-					}
-				}
-			}
-			ip.Exec(fr, s)
-			if fr.Err() != "" {
-				bad = fr.Err()
-				break
-			}
-		}
-		if bad != "" || emitted == nil {
-			r.Undec(rule, c, pos, "class body outside the fragment: "+bad)
-			continue
-		}
-		in := bits.Input(fi.Decl.Type.Params.List[0].Names[0].Name, 64)
-		ok := emitted.Len == want.tag+1
-		detail := ""
-		if !ok {
-			detail = fmt.Sprintf("emits %d bytes, want tag + %d", emitted.Len, want.tag)
-		}
-		if ok {
-			if tagv, isC := bits.ConstOf(emitted.Get(0)); !isC || int(tagv) != want.tag {
-				ok, detail = false, fmt.Sprintf("tag byte is %s, want %d", emitted.Get(0), want.tag)
-			}
-		}
-		for k := 0; k < want.tag && ok; k++ {
-			wantv := make(bits.Vec, 8)
-			for j := 0; j < 8; j++ {
-				wantv[j] = in[8*(want.tag-1-k)+j]
-			}
-			if got := emitted.Get(k + 1); !bits.Equal(got, wantv) {
-				ok, detail = false, fmt.Sprintf("payload byte %d is %s, want %s", k, got, wantv)
-			}
-		}
-		if ok {
-			r.OK(rule, c, pos, fmt.Sprintf("[%s,%s] -> tag %d + %d big-endian bytes", want.lo, want.hi, want.tag, want.tag))
-		} else {
-			r.Viol(rule, c, pos, detail)
-		}
-	}
-	// readers
-	readerOf := map[string]string{"1": "ReadByte", "2": "ReadShort", "3": "ReadInt3", "4": "ReadInt", "5": "ReadLong5", "8": "ReadLong", "default": "ReadLong"}
-	for _, rn := range []string{"ReadDecimal", "ReadDecimalLen"} {
-		rfi := p.Method("io", "DataInputX", rn)
-		c := "io.(*DataInputX)." + rn
-		if rfi == nil {
-			r.Undec(rule, c, "-", "not found")
-			continue
-		}
-		rinfo := rfi.Pkg.TypesInfo
-		var rsw *ast.SwitchStmt
-		ast.Inspect(rfi.Decl.Body, func(n ast.Node) bool {
-			if s, ok := n.(*ast.SwitchStmt); ok && rsw == nil {
-				rsw = s
-			}
-			return true
-		})
-		if rsw == nil {
-			r.Undec(rule, c, p.Pos(rfi.Decl.Pos()), "no switch on the length tag")
-			continue
-		}
-		seen := map[string]bool{}
-		for _, st := range rsw.Body.List {
-			cl := st.(*ast.CaseClause)
-			keys := []string{"default"}
-			if cl.List != nil {
-				keys = nil
-				for _, e := range cl.List {
-					if tv, ok := rinfo.Types[e]; ok && tv.Value != nil {
-						keys = append(keys, tv.Value.ExactString())
-					}
-				}
-			}
-			// returned expression
-			var ret ast.Expr
-			for _, s := range cl.Body {
-				if rs, ok := s.(*ast.ReturnStmt); ok && len(rs.Results) == 1 {
-					ret = rs.Results[0]
-				}
-			}
-			for _, k := range keys {
-				seen[k] = true
-				cc := fmt.Sprintf("%s tag %s", c, k)
-				if k == "0" {
-					r.Check(ret != nil && cstr2(rinfo, ret) == "0", rule, cc, p.Pos(cl.Pos()), "tag 0 -> 0", "tag 0 does not decode to 0")
-					continue
-				}
-				want, known := readerOf[k]
-				if !known {
-					want = "ReadLong" // tags 6,7,>8 are not produced by the writer; both readers must fall to 8 bytes
-				}
-				got, conv8 := readCallee(ret)
-				ok := got == want
-				if k == "1" {
-					ok = ok && conv8 // -1 must not read back as 255
-				}
-				r.Check(ok, rule, cc, p.Pos(cl.Pos()), "-> "+want, fmt.Sprintf("tag %s is decoded with %s (int8 conversion: %v), want %s", k, got, conv8, want))
-			}
-		}
-		for _, k := range []string{"0", "1", "2", "3", "4", "5", "default"} {
-			if !seen[k] {
-				r.Viol(rule, fmt.Sprintf("%s tag %s", c, k), p.Pos(rsw.Pos()), "no case for this tag")
-			}
-		}
-	}
-}
-
 func cstr2(info *types.Info, e ast.Expr) string {
 	if tv, ok := info.Types[e]; ok && tv.Value != nil {
 		return tv.Value.ExactString()
@@ -594,123 +406,6 @@ func singleWriteByteConst(info *types.Info, body []ast.Stmt) string {
 		return "?"
 	}
 	return cstr2(info, call.Args[0])
-}
-
-// c01Blob: thresholds/markers of WriteBlob vs ReadBlob.
-func c01Blob(p *core.Program, r *core.Report, rule string) {
-	w := p.Method("io", "DataOutputX", "WriteBlob")
-	rd := p.Method("io", "DataInputX", "ReadBlob")
-	if w == nil || rd == nil {
-		r.Undec(rule, "io WriteBlob/ReadBlob", "-", "not found")
-		return
-	}
-	winfo, rinfo := w.Pkg.TypesInfo, rd.Pkg.TypesInfo
-	// writer: collect `sz <= C` thresholds in order and the literal markers with their setter
-	var thresholds []int64
-	type marker struct {
-		m      int64
-		n      int
-		setter string
-	}
-	var markers []marker
-	strict := false
-	ast.Inspect(w.Decl.Body, func(n ast.Node) bool {
-		switch v := n.(type) {
-		case *ast.BinaryExpr:
-			if v.Op == token.LEQ || v.Op == token.LSS {
-				if c, ok := constIntOf(winfo, v.Y); ok {
-					if _, isCall := v.X.(*ast.CallExpr); !isCall {
-						if v.Op == token.LSS {
-							strict = true
-							c--
-						}
-						thresholds = append(thresholds, c)
-					}
-				}
-			}
-		case *ast.CompositeLit:
-			if len(v.Elts) >= 3 {
-				if c, ok := constIntOf(winfo, v.Elts[0]); ok {
-					markers = append(markers, marker{m: c, n: len(v.Elts) - 1})
-				}
-			}
-		case *ast.CallExpr:
-			if id, ok := v.Fun.(*ast.Ident); ok && strings.HasPrefix(id.Name, "SetBytes") && len(markers) > 0 && markers[len(markers)-1].setter == "" {
-				markers[len(markers)-1].setter = id.Name
-			}
-		}
-		return true
-	})
-	_ = strict
-	pos := p.Pos(w.Decl.Pos())
-	okW := len(thresholds) == 2 && len(markers) == 2
-	if !okW {
-		r.Undec(rule, "io.(*DataOutputX).WriteBlob", pos, fmt.Sprintf("cannot read the length classes (thresholds %v, markers %v)", thresholds, markers))
-		return
-	}
-	minMarker := markers[0].m
-	if markers[1].m < minMarker {
-		minMarker = markers[1].m
-	}
-	r.Check(thresholds[0] == 253 && thresholds[0] < minMarker, rule, "io.WriteBlob one-byte class", pos,
-		"lengths 1..253 use the length byte itself; 254/255 are reserved markers", fmt.Sprintf("one-byte lengths go up to %d but %d is a marker: that length is mis-decoded", thresholds[0], minMarker))
-	r.Check(markers[0].m == 255 && markers[0].n == 2 && markers[0].setter == "SetBytesShort" && thresholds[1] == 65535, rule, "io.WriteBlob two-byte class", pos,
-		"254..65535 -> marker 255 + 2-byte length", fmt.Sprintf("marker %d with %d length bytes via %s up to %d; want 255, 2, SetBytesShort, 65535", markers[0].m, markers[0].n, markers[0].setter, thresholds[1]))
-	r.Check(markers[1].m == 254 && markers[1].n == 4 && markers[1].setter == "SetBytesInt", rule, "io.WriteBlob four-byte class", pos,
-		"> 65535 -> marker 254 + 4-byte length", fmt.Sprintf("marker %d with %d length bytes via %s; want 254, 4, SetBytesInt", markers[1].m, markers[1].n, markers[1].setter))
-	// reader
-	var rsw *ast.SwitchStmt
-	ast.Inspect(rd.Decl.Body, func(n ast.Node) bool {
-		if s, ok := n.(*ast.SwitchStmt); ok && rsw == nil {
-			rsw = s
-		}
-		return true
-	})
-	if rsw == nil {
-		r.Undec(rule, "io.(*DataInputX).ReadBlob", p.Pos(rd.Decl.Pos()), "no switch on the length byte")
-		return
-	}
-	got := map[string]string{}
-	for _, st := range rsw.Body.List {
-		cl := st.(*ast.CaseClause)
-		key := "default"
-		if cl.List != nil {
-			key = cstr2(rinfo, cl.List[0])
-		}
-		var calls []string
-		ast.Inspect(cl, func(n ast.Node) bool {
-			if call, ok := n.(*ast.CallExpr); ok {
-				if sel, ok := call.Fun.(*ast.SelectorExpr); ok && strings.HasPrefix(sel.Sel.Name, "Read") {
-					calls = append(calls, sel.Sel.Name)
-				}
-			}
-			return true
-		})
-		got[key] = strings.Join(calls, ",")
-	}
-	rpos := p.Pos(rd.Decl.Pos())
-	r.Check(got["255"] == "ReadBytes,ReadUnsignedShort" || got["255"] == "ReadUnsignedShort,ReadBytes", rule, "io.ReadBlob marker 255", rpos, "2-byte unsigned length", "marker 255 handled by "+got["255"])
-	r.Check(got["254"] == "ReadBytes,ReadInt" || got["254"] == "ReadInt,ReadBytes", rule, "io.ReadBlob marker 254", rpos, "4-byte length", "marker 254 handled by "+got["254"])
-	_, has0 := got["0"]
-	r.Check(has0 && got["0"] == "" && got["default"] == "ReadBytes", rule, "io.ReadBlob 0/default", rpos, "0 -> empty; other -> that many bytes", fmt.Sprintf("0 handled by %q, default by %q", got["0"], got["default"]))
-	// WriteText ≅ WriteBlob([]byte(s)), ReadText ≅ string(ReadBlob())
-	wt, rt := p.Method("io", "DataOutputX", "WriteText"), p.Method("io", "DataInputX", "ReadText")
-	callsBlob := func(fi *core.FuncInfo, name string) bool {
-		ok := false
-		if fi == nil {
-			return false
-		}
-		ast.Inspect(fi.Decl.Body, func(n ast.Node) bool {
-			if call, isC := n.(*ast.CallExpr); isC {
-				if sel, isS := call.Fun.(*ast.SelectorExpr); isS && sel.Sel.Name == name {
-					ok = true
-				}
-			}
-			return true
-		})
-		return ok
-	}
-	r.Check(callsBlob(wt, "WriteBlob") && callsBlob(rt, "ReadBlob"), rule, "io text = blob of the string's bytes", rpos, "WriteText delegates to WriteBlob, ReadText to ReadBlob", "text is not carried as a blob")
 }
 
 func c01Helpers(p *core.Program, r *core.Report) {
